@@ -227,6 +227,7 @@ def handleProv (toks : List String) (impl : String) : Verdict :=
             if x ≠ doc then some "the document written for an API-made provisioning message is not the RFC 6492 document for its fields (element or attribute names and order, namespace, version, resource-set text, time, Base64)"
             else if back = "err" then some "the library rejects the RFC 6492 document it wrote for an API-made message"
             else if back ≠ "same" then some "the written provisioning message parses back to an unequal message"
+            else if Rpki.ProvMsg.read x ≠ some m then some "the reference reader does not read the written RFC 6492 document back as the message that was built"
             else none)
         | _ => some "unreadable result" }
 
